@@ -181,10 +181,24 @@ impl<'tcx> Cx<'tcx> {
     fn body(&self, did: rustc_hir::def_id::DefId, out: &mut String) {
         let tcx = self.tcx;
         let body = tcx.optimized_mir(did);
+        self.body_inner(did, body, None, out);
+        let proms = tcx.promoted_mir(did);
+        for (i, pb) in proms.iter_enumerated() {
+            out.push_str(",\n");
+            self.body_inner(did, pb, Some(i.as_usize()), out);
+        }
+    }
+
+    fn body_inner(&self, did: rustc_hir::def_id::DefId, body: &Body<'tcx>, promoted: Option<usize>, out: &mut String) {
+        let tcx = self.tcx;
         let tenv = TypingEnv::post_analysis(tcx, did);
         let kind = tcx.def_kind(did);
-        let _ = write!(out, "{{\"id\":{},\"path\":{},\"kind\":{},\"span\":{},\"argc\":{}", esc(&format!("{:?}", tcx.def_path_hash(did).0)), esc(&tcx.def_path_str(did)), esc(&format!("{:?}", kind)), self.span(body.span), body.arg_count);
-        if matches!(kind, DefKind::Fn | DefKind::AssocFn) {
+        let (idstr, pathstr, kindstr) = match promoted {
+            None => (format!("{:?}", tcx.def_path_hash(did).0), tcx.def_path_str(did), format!("{:?}", kind)),
+            Some(i) => (format!("{:?}::promoted[{}]", tcx.def_path_hash(did).0, i), format!("{}::promoted[{}]", tcx.def_path_str(did), i), "Promoted".to_string()),
+        };
+        let _ = write!(out, "{{\"id\":{},\"path\":{},\"kind\":{},\"span\":{},\"argc\":{}", esc(&idstr), esc(&pathstr), esc(&kindstr), self.span(body.span), body.arg_count);
+        if promoted.is_none() && matches!(kind, DefKind::Fn | DefKind::AssocFn) {
             let _ = write!(out, ",\"vis\":{}", esc(&format!("{:?}", tcx.visibility(did))));
             let eff = tcx.effective_visibilities(());
             if let Some(l) = did.as_local() { let _ = write!(out, ",\"exported\":{}", eff.is_exported(l)); }
